@@ -143,6 +143,33 @@ def run(ctx):
                   mechanism="__call__ vs nll_grad vs nll_grad_hessian (%s)" % model)
         if gauss:
             ctx.check("gaussian constraint term", rel(list(values.values())[0][0], ref) <= 1.0, lambda: dict(desc(), ref=ref), mechanism="gaussian constraint")
+            # the parameter point is handed over WITH the call (as a minimiser does), a sequence of two points that move the constrained
+            # parameter: every value must be the formula at the point of that call
+            try:
+                gname = list(gauss)[0]
+                seq_ok, seq_w = True, []
+                if model == "cached_int":
+                    raise StopIteration  # the constrained parameter is a resonance mass: cached integrals require fixed line-shape parameters
+                for dlt in (0.013, -0.021):
+                    pt = dict(params)
+                    pt[gname] = params[gname] + dlt
+                    with lik.quiet():
+                        fcn_s = cfg.get_fcn([[data], [phsp], [bg], None], batch=65000) if dlt > 0 else fcn_s
+                        v_c = float(fcn_s(pt))
+                        v_g = float(fcn_s.nll_grad(pt)[0])
+                    amp.set_params(pt)
+                    ref_s, min_s = lik.reference_nll(model, amp, data, phsp, bg, w_bkg, bg_frac, gauss, pt)
+                    if min_s > 1e-5 and np.isfinite(ref_s):
+                        seq_w.append({"point": {gname: pt[gname]}, "call": v_c, "nll_grad": v_g, "formula": ref_s})
+                        seq_ok = seq_ok and rel(v_c, ref_s) <= 1.0 and rel(v_g, ref_s) <= 1.0
+                amp.set_params(params)
+                if seq_w:
+                    ctx.check("gaussian constraint term", seq_ok, lambda: dict(desc(), sequence=seq_w), mechanism="gaussian constraint: value of fcn(x) for a sequence of points (%s)" % model)
+            except StopIteration:
+                pass
+            except Exception as e:
+                amp.set_params(params)
+                ctx.violation("gaussian constraint term", ctx.exc_witness(e, **desc()), mechanism="gaussian constraint sequence raises (%s)" % model)
         ctx.case((model, wkind, cards.card_digest_key(card), tuple(batches)), nontrivial=wkind != "ones" or any(n_tot % b for b in batches if b < n_tot))
         ctx.covered("model", model)
         ctx.covered("weights", wkind)
